@@ -80,18 +80,27 @@ fn attack(ctx: &Ctx, b: &Bundle) {
     }
     // v: value * g^(-randomness) == v  (Cv = v * g_0^w)
     if let Some((_, v)) = b.secrets.iter().find(|(k, _)| k == "signature-v") {
-        for (bl, g, _) in &b.base_pairs {
+        // value * g^(-rho) == v  <=>  value == v * g^rho: one exponentiation and one lookup per (g, rho).
+        // Only the first g of each family can blind v in this library; for small proofs all bases are tried, for
+        // proofs with very many fields the first base of each family and the bases of the hidden positions.
+        let np = b.base_pairs.len();
+        let per_family = if b.kind == "spok" { np / 2 } else { np };
+        let few = np * rhos.len() <= 6000;
+        for (k, (bl, g, _)) in b.base_pairs.iter().enumerate() {
+            let pos = if per_family > 0 { k % per_family } else { 0 };
+            if !few && pos != 0 && !b.hidden.iter().take(6).any(|(i, _)| *i == pos) {
+                continue;
+            }
             for (rho, rf) in &rhos {
-                let ginv = powm(g, &Integer::from(-rho), n);
-                for (val, vf) in &values {
-                    if &mulm(val, &ginv, n) == v {
-                        found.push((vf.clone(), rf.clone(), bl.clone(), "signature-v".into()));
-                    }
+                if !few && rho.significant_bits() > n.significant_bits() + 700 {
+                    continue;
+                }
+                let target = mulm(v, &powm(g, rho, n), n);
+                if let Some(vf) = values.get(&target) {
+                    found.push((vf.clone(), rf.clone(), bl.clone(), "signature-v".into()));
                 }
                 ctx.count("modular_exponentiations", 1);
             }
-            // only the first g of each family can blind v in this library; the others are tried too
-            let _ = bl;
         }
     }
     // whole hidden vector confirmed from a multi-base commitment: value == prod g_i^{m_i} * h^rho
@@ -120,12 +129,32 @@ fn attack(ctx: &Ctx, b: &Bundle) {
         }
     }
     // complete openings carried inside the proof: value == g^{leaf1} * h^{leaf2} for two leaves of the proof
-    for (bl, g, h) in &b.base_pairs {
+    // (bounded: base pairs of hidden positions first; proofs with very many fields stop after a budget and say so)
+    let mut order: Vec<&(String, Integer, Integer)> = vec![];
+    let np = b.base_pairs.len();
+    let per_family = if b.kind == "spok" { np / 2 } else { np };
+    for (k, bp) in b.base_pairs.iter().enumerate() {
+        if b.hidden.iter().any(|(i, _)| per_family > 0 && k % per_family == *i) {
+            order.push(bp);
+        }
+    }
+    for (k, bp) in b.base_pairs.iter().enumerate() {
+        if !b.hidden.iter().any(|(i, _)| per_family > 0 && k % per_family == *i) {
+            order.push(bp);
+        }
+    }
+    let mut budget: i64 = if rhos.len() > 600 { 6_000 } else { 20_000 };
+    for (bl, g, h) in order.into_iter().map(|x| (&x.0, &x.1, &x.2)) {
         let hi = hs.iter().position(|z| z == h).unwrap();
+        if budget <= 0 {
+            ctx.count("complete_opening_searches_cut_by_budget", 1);
+            break;
+        }
         for (x, xf) in &rhos {
             if x.significant_bits() > 4200 {
                 continue;
             }
+            budget -= 1;
             let gx = powm(g, x, n);
             ctx.count("modular_exponentiations", 1);
             for (rho, rf) in &rhos {
@@ -240,7 +269,12 @@ fn attack(ctx: &Ctx, b: &Bundle) {
     // inputs): V / W or V * W equal to a product of public bases raised to +-(hidden attribute values) lets
     // the recipient confirm guessed values. Decoy values must not hit.
     if !b.hidden.is_empty() {
-        let vals: Vec<(&Integer, &String)> = values.iter().filter(|(v, _)| v.significant_bits() + 64 > n.significant_bits()).collect();
+        let mut vals: Vec<(&Integer, &String)> = values.iter().filter(|(v, _)| v.significant_bits() + 64 > n.significant_bits()).collect();
+        if vals.len() > 300 {
+            // very many fields: the group elements inside range proofs are left to the per-range-proof oracle above
+            vals.retain(|(_, f)| !f.contains("range_proof"));
+            ctx.count("pairwise_oracle_without_range_proof_fields", 1);
+        }
         let mut combos: HashMap<Integer, String> = HashMap::new();
         for (i, (va, pa)) in vals.iter().enumerate() {
             let Ok(inva) = (*va).clone().invert(n) else { continue };
@@ -399,6 +433,106 @@ fn size_channel<C: Cs>(ctx: &Ctx, idx: u64) {
     ctx.sample(json!({"workload":"size channel","candidates":candidates.iter().map(|c| c.0).collect::<Vec<_>>(),"proofs_per_candidate":per * 2,"fields_compared":fields}));
 }
 
+/// Fresh randomness across threads: the same statement is proved on several threads at once (same commitment key, and a
+/// second key so that challenges differ while the sequence of draws is the same). No large field may repeat between
+/// two proofs, and (s - s') / (c - c') over two proofs must not be a secret (two-transcript extraction).
+fn cross_thread<C: Cs>(ctx: &Ctx, idx: u64) {
+    use zkryptium::schemes::algorithms::CL03;
+    use zkryptium::schemes::generics::{Commitment, PoKSignature, Signature, ZKPoK};
+    let mut r = ctx.rng("c17x", idx);
+    let n = 2usize;
+    let Some(st) = Setup::<C>::new(ctx, n) else {
+        ctx.inconclusive("C17: key generation panicked (C18's business)");
+        return;
+    };
+    let (bases, cpk) = (st.bases_n(n), st.cpk_n(n));
+    let cpk2 = zkryptium::cl03::keys::CL03CommitmentPublicKey::generate::<C>(Some(st.pk().N.clone()), Some(n));
+    let msgs = attributes::<C>(&mut r, n, 0);
+    let u = vec![0usize];
+    let sig = Signature::<CL03<C>>::sign_multiattr(st.pk(), st.sk(), &bases, &msgs);
+    let sj = serde_json::to_value(&sig).unwrap();
+    let e = leaves(&sj).into_iter().find(|(p, _)| p.ends_with("/e")).unwrap().1;
+    let secrets: Vec<(&str, Integer)> = vec![("hidden-attribute", msgs[0].value.clone()), ("signature-exponent-e", e)];
+    let threads = 4usize;
+    let barrier = std::sync::Barrier::new(threads);
+    let out: std::sync::Mutex<Vec<(String, serde_json::Value)>> = std::sync::Mutex::new(vec![]);
+    let scn = current_scenario();
+    std::thread::scope(|sc| {
+        for t in 0..threads {
+            let (barrier, out, scn, st, bases, cpk, cpk2, msgs, u, sig) = (&barrier, &out, &scn, &st, &bases, &cpk, &cpk2, &msgs, &u, &sig);
+            sc.spawn(move || {
+                set_scenario(scn);
+                barrier.wait();
+                let case = format!("{}/cross-thread/t{}", C::NAME, t);
+                ctx.distinct(&case);
+                for (kind, key) in [("spok/key1", cpk), ("spok/key2", cpk2), ("spok/key1", cpk)] {
+                    if let Some(p) = ctx.call("PoKSignature::proof_gen", &case, None, || Ok::<_, ()>(PoKSignature::<CL03<C>>::proof_gen(sig.cl03Signature(), key, st.pk(), bases, msgs, u))).value {
+                        out.lock().unwrap().push((kind.to_string(), serde_json::to_value(&p).unwrap()));
+                    }
+                }
+                let com = Commitment::<CL03<C>>::commit_with_pk(msgs, st.pk(), bases, Some(u));
+                if let Some(z) = ctx.call("ZKPoK::generate_proof", &case, None, || Ok::<_, ()>(ZKPoK::<CL03<C>>::generate_proof(msgs, com.cl03Commitment(), None, st.pk(), bases, None, u))).value {
+                    let mut j = serde_json::to_value(&z).unwrap();
+                    j["public_commitment"] = int_to_leaf(com.value());
+                    out.lock().unwrap().push(("zkpok".to_string(), j));
+                }
+            });
+        }
+    });
+    let proofs = out.into_inner().unwrap();
+    ctx.count("cross_thread_proofs", proofs.len() as u64);
+    // A: no large field repeats between two different proofs
+    let mut first: HashMap<Integer, (usize, String)> = HashMap::new();
+    for (k, (_, j)) in proofs.iter().enumerate() {
+        for (p, v) in leaves(j) {
+            if v.significant_bits() < 128 {
+                continue;
+            }
+            match first.get(&v) {
+                Some((k0, p0)) if *k0 != k => {
+                    ctx.violation(&format!("C17:field-repeated-across-proofs/{}", path_class(&p)), json!({"first":{"proof":k0,"field":p0},"again":{"proof":k,"field":p},"bits":v.significant_bits()}));
+                }
+                Some(_) => {}
+                None => {
+                    first.insert(v, (k, p));
+                }
+            }
+        }
+    }
+    // B: two-transcript extraction over every pair of proofs of the same shape
+    let mut pairs = 0u64;
+    for a in 0..proofs.len() {
+        for b2 in a + 1..proofs.len() {
+            if proofs[a].0.split('/').next() != proofs[b2].0.split('/').next() {
+                continue;
+            }
+            let (la, lb) = (leaves(&proofs[a].1), leaves(&proofs[b2].1));
+            let cb: HashMap<&String, &Integer> = lb.iter().map(|(p, v)| (p, v)).collect();
+            let chs: Vec<Integer> = la.iter().filter(|(p, _)| p.ends_with("/challenge") || p.ends_with("/C")).filter_map(|(p, c)| cb.get(p).map(|c2| Integer::from(c - *c2))).filter(|d| *d != 0).collect();
+            for (p, s1) in &la {
+                let Some(s2) = cb.get(p) else { continue };
+                let d = Integer::from(s1 - *s2);
+                if d == 0 {
+                    continue;
+                }
+                for dc in &chs {
+                    if d.is_divisible(dc) {
+                        let q = Integer::from(&d / dc);
+                        for (kind, x) in &secrets {
+                            if &q == x {
+                                ctx.violation(&format!("C17:two-transcript-extraction/{}~{}", path_class(p), kind), json!({"proofs":[a, b2],"field":p}));
+                            }
+                        }
+                    }
+                }
+            }
+            pairs += 1;
+        }
+    }
+    ctx.count("cross_thread_transcript_pairs", pairs);
+    ctx.sample(json!({"workload":"cross-thread","threads":threads,"proofs":proofs.len(),"transcript_pairs":pairs}));
+}
+
 fn run<C: Cs>(ctx: &Ctx, idx: u64, nmax: usize) {
     let mut r = ctx.rng("c17", idx);
     let Some(st) = Setup::<C>::new(ctx, nmax) else {
@@ -426,14 +560,17 @@ pub fn scenarios(ctx: &Ctx) -> Vec<Scenario> {
     for i in 0..ctx.t(1u64, 3u64) {
         v.push(scenario("CL1024/size-channel", move |c| size_channel::<CL1024Sha256>(c, 500 + i)));
     }
+    for i in 0..ctx.t(1u64, 4u64) {
+        v.push(scenario("CL1024/cross-thread", move |c| cross_thread::<CL1024Sha256>(c, 600 + i)));
+    }
     // many attributes, hidden positions deep in the vector
     let quick = ctx.quick();
     v.push(scenario("CL1024/large-n", move |c| {
         let mut r = c.rng("c17-large", 0);
         let shapes: Vec<(usize, Vec<usize>)> = if quick {
-            vec![(70, vec![5, 64]), (33, vec![32])]
+            vec![(70, vec![5, 64]), (33, vec![32]), (48, (0..45).collect())]
         } else {
-            vec![(70, vec![5, 64]), (96, vec![31, 69, 95]), (33, vec![32]), (130, vec![0, 64, 128, 129]), (17, vec![16])]
+            vec![(70, vec![5, 64]), (96, vec![31, 69, 95]), (33, vec![32]), (130, vec![0, 64, 128, 129]), (17, vec![16]), (48, (0..45).collect()), (70, (0..70).collect())]
         };
         let bundles = large_bundles::<CL1024Sha256>(c, &mut r, &shapes);
         c.count("proofs_attacked", bundles.len() as u64);
